@@ -339,6 +339,40 @@ class St:
             return self.refine_bool(d[1], True, depth + 1) and self.refine_bool(d[2], True, depth + 1)
         if k == "bor" and lo == hi == 0:
             return self.refine_bool(d[1], False, depth + 1) and self.refine_bool(d[2], False, depth + 1)
+        if k == "wrapped" and len(d) > 4 and self.iv.get(d[4]) == (0, 0):
+            # value of a checked operation whose overflow flag is clear: exact, so bounds propagate to the operand
+            _k, op, x, y = d[:4]
+            ry = self.raw_iv(y)
+            if ry and ry[0] == ry[1]:
+                c = ry[0]
+                if op == "Mul" and c > 0:
+                    return self.set_iv_d(x, -((-lo) // c), hi // c, depth + 1)
+                if op == "Add":
+                    return self.set_iv_d(x, lo - c, hi - c, depth + 1)
+                if op == "Sub":
+                    return self.set_iv_d(x, lo + c, hi + c, depth + 1)
+            return True
+        if k == "mulc":    # a = x * c (exact), c > 0
+            c = d[2]
+            return self.set_iv_d(d[1], -((-lo) // c), hi // c, depth + 1)
+        if k == "ovf" and lo == hi == 1:
+            # the checked operation DID overflow: refine an operand when the other one is a constant of known sign
+            _k, op, x, y, bits, signed = d
+            tmax = (1 << (bits - 1)) - 1 if signed else (1 << bits) - 1
+            tmin = -(1 << (bits - 1)) if signed else 0
+            rx, ry = self.raw_iv(x), self.raw_iv(y)
+            if rx and ry:
+                if op == "Mul" and ry[0] == ry[1] and ry[0] > 0:
+                    c = ry[0]
+                    if rx[0] >= 0:
+                        return self.set_iv_d(x, tmax // c + 1, rx[1], depth + 1)
+                    if rx[1] <= 0:
+                        return self.set_iv_d(x, rx[0], -((-tmin) // c) - 1, depth + 1)
+                elif op == "Add" and ry[0] >= 0:
+                    return self.set_iv_d(x, tmax - ry[1] + 1, rx[1], depth + 1)
+                elif op == "Sub" and ry[0] >= 0:
+                    return self.set_iv_d(x, rx[0], tmin + ry[1] - 1, depth + 1)
+            return True
         if k == "shr_c":   # a = x >> c
             x, c = d[1], d[2]
             return self.set_iv_d(x, lo << c, ((hi + 1) << c) - 1, depth + 1)
@@ -577,6 +611,35 @@ def join_states(s1, s2, widen_with=None, thresholds=None):
                     old = n.facts.get((na, ng))
                     if old is None or c < old:
                         n.facts[(na, ng)] = c
+    # difference bounds between changed integer cells and the lengths of slices held by cells of the same frame
+    # (keeps `index <= len` across a scanning loop even when both states only know it through intervals)
+    for fr_id, fd in s1.env.f.items():
+        fd2 = s2.env.f.get(fr_id)
+        if not fd2:
+            continue
+        lens = []
+        for key, p in fd.items():
+            if type(p) is int and p in G.ptr and G.ptr[p][0] == "slice" and fd2.get(key) == p:
+                ln = G.ptr[p][3]
+                if is_int(ln):
+                    lens.append(ln)
+        if not lens:
+            continue
+        for key, a in fd.items():
+            b = fd2.get(key)
+            if b is None or a == b or not (is_int(a) and is_int(b)):
+                continue
+            na = n.env.get(key)
+            if na is None or not is_int(na):
+                continue
+            for ln in lens:
+                if na == ln:
+                    continue
+                c = max(s1.best_diff(a, ln), s2.best_diff(b, ln))
+                if c <= 0:
+                    old = n.facts.get((na, ln))
+                    if old is None or c < old:
+                        n.facts[(na, ln)] = c
     # structural candidates: a sibling integer field bounds the ghost "initialised prefix" of an array cell
     for key, i1 in s1.env.items():
         if key[-1] != ("g", "init"):
@@ -599,36 +662,58 @@ def join_states(s1, s2, widen_with=None, thresholds=None):
                         n.facts[(nb, ni)] = 0
     # facts, Houdini-style: a candidate is a fact of either state over atoms stored in cells; it survives if
     # the other state entails it (intervals, facts, definitions)
-    def cellof(st, key):
+    def _cell(st, key):
+        if len(key) == 3 and key[1] == "@":
+            # pseudo-cell: integer component (offset / length) of the pointer held by cell key[0]
+            p = st.env.get(key[0])
+            d = G.ptr.get(p) if type(p) is int else None
+            if d is None or key[2] >= len(d):
+                return None
+            return d[key[2]]
         return st.env.get(key) if key in st.env else st.ghost.get(key)
 
+    def cellof(st, key):
+        return _cell(st, key)
+
     def ncell(key):
-        return n.env.get(key) if key in n.env else n.ghost.get(key)
+        return _cell(n, key)
 
     for sa, sb in ((s1, s2), (s2, s1)):
         if not sa.facts:
             continue
+        # atoms held by cells, and atoms a cell's value is a constant offset from (cell = atom + k)
         rev = {}
         for key, a in itertools.chain(sa.env.items(), sa.ghost.items()):
             if type(a) is int and a in G.base:
-                rev.setdefault(a, []).append(key)
+                rev.setdefault(a, []).append((key, 0))
+                d = G.df.get(a)
+                if d and d[0] == "addc":
+                    rev.setdefault(d[1], []).append((key, d[2]))
+            elif type(a) is int and a in G.ptr and key[0] != "iter":
+                for idx, x in enumerate(G.ptr[a]):
+                    if idx and type(x) is int and x in G.base:
+                        rev.setdefault(x, []).append(((key, "@", idx), 0))
         for (a, b), c in sa.facts.items():
             ka, kb = rev.get(a), rev.get(b)
             if ka is None and kb is None:
                 continue        # facts between atoms no cell holds any more are garbage-collected at joins
-            for k1 in (ka or [None])[:3]:
-                for k2 in (kb or [None])[:3]:
+            for k1, o1 in (ka or [(None, 0)])[:3]:
+                for k2, o2 in (kb or [(None, 0)])[:3]:
+                    # cell1 = a + o1, cell2 = b + o2, a - b <= c   =>   cell1 - cell2 <= c + o1 - o2
+                    cc = c + o1 - o2
                     a2 = cellof(sb, k1) if k1 is not None else a
                     b2 = cellof(sb, k2) if k2 is not None else b
+                    a1 = cellof(sa, k1) if k1 is not None else a
+                    b1 = cellof(sa, k2) if k2 is not None else b
                     if a2 is None or b2 is None or not is_int(a2) or not is_int(b2):
                         continue
-                    if sb.diff_le(a2, b2, c):
+                    if sb.diff_le(a2, b2, cc) and sa.diff_le(a1, b1, cc):
                         na = ncell(k1) if k1 is not None else a
                         nb = ncell(k2) if k2 is not None else b
                         if na is not None and nb is not None and na != nb and is_int(na) and is_int(nb):
                             old = n.facts.get((na, nb))
-                            if old is None or c < old:
-                                n.facts[(na, nb)] = c
+                            if old is None or cc < old:
+                                n.facts[(na, nb)] = cc
     return n
 
 
